@@ -414,6 +414,10 @@ func (table *Table) Del(primaryKey []byte) error {
 	//copy row
 	delrow := *row
 	delrow.Ty = Del
+	//the db still holds the row as it was before a buffered Update: its index entries are the ones to delete
+	if incache && delrow.old != nil {
+		delrow.Data = delrow.old
+	}
 	table.addRowCache(&delrow)
 	return nil
 }
